@@ -281,12 +281,12 @@ def emit_mime():
          'From Coq Require Import NArith ZArith List Init.Byte.', 'Import ListNotations.', '']
     mt = wellknown_enum('rsocket/extensions/mimetypes.py', 'WellKnownMimeTypes', 'WellKnownMimeType')
     L.append('Definition mime_table : list (list byte * Z) := [')
-    L.append(';\n'.join(f'  ({coq_bytes(n)}, {i}%Z)' for _, n, i in mt))
+    L.append(';\n'.join(f'  ({coq_bytes(n)}, ({i})%Z)' for _, n, i in mt))
     L.append('].')
     at = wellknown_enum('rsocket/extensions/authentication_types.py', 'WellKnownAuthenticationTypes',
                         'WellKnownAuthenticationType')
     L.append('Definition auth_table : list (list byte * Z) := [')
-    L.append(';\n'.join(f'  ({coq_bytes(n)}, {i}%Z)' for _, n, i in at))
+    L.append(';\n'.join(f'  ({coq_bytes(n)}, ({i})%Z)' for _, n, i in at))
     L.append('].')
     # typed composite entries
     enum_name = {m: n for m, n, _ in mt}
@@ -307,7 +307,51 @@ def emit_mime():
              '; '.join(f'({coq_bytes(n)}, {kind[v]}%N)' for n, v in typed) + '].')
     enum_auth = {m: n for m, n, _ in at}
     d = dict_literal_names('rsocket/extensions/authentication_content.py', 'metadata_item_factory_by_type')
-    # not needed in shape detail: record names only
+    akind = {'AuthenticationSimple': 1, 'AuthenticationBearer': 2}
+    rows = []
+    for k, v in d:
+        parts = k.split('.')
+        if len(parts) != 4 or parts[0] != 'WellKnownAuthenticationTypes' or parts[2:] != ['value', 'name'] \
+                or parts[1] not in enum_auth or v not in akind:
+            raise GenError(f'authentication_content.py: unexpected factory row {k}: {v}')
+        rows.append(f'({coq_bytes(enum_auth[parts[1]])}, {akind[v]}%N)')
+    L.append('(* authentication type name -> class (1 AuthenticationSimple, 2 AuthenticationBearer) *)')
+    L.append('Definition auth_factory_table : list (list byte * N) := [' + '; '.join(rows) + '].')
+    # the `type` property of each authentication class
+    for cname, var in (('AuthenticationSimple', 'auth_simple_type'), ('AuthenticationBearer', 'auth_bearer_type')):
+        tree = _parse('rsocket/extensions/authentication.py')
+        fn = func_node(class_node(tree, 'rsocket/extensions/authentication.py', cname),
+                       'rsocket/extensions/authentication.py', 'type')
+        rets = [n for n in ast.walk(fn) if isinstance(n, ast.Return)]
+        if len(rets) != 1:
+            raise GenError(f'authentication.py: {cname}.type is not a single return')
+        parts = _dotted(rets[0].value).split('.')
+        if len(parts) != 4 or parts[0] != 'WellKnownAuthenticationTypes' or parts[2:] != ['value', 'name'] \
+                or parts[1] not in enum_auth:
+            raise GenError(f'authentication.py: {cname}.type returns an unexpected expression')
+        L.append(f'Definition {var} : list byte := {coq_bytes(enum_auth[parts[1]])}.')
+    # the encoding each typed composite entry class passes to its base constructor
+    rows = []
+    for rel, cname in (('rsocket/extensions/routing.py', 'RoutingMetadata'),
+                       ('rsocket/extensions/stream_data_mimetype.py', 'StreamDataMimetype'),
+                       ('rsocket/extensions/stream_data_mimetype.py', 'StreamDataMimetypes'),
+                       ('rsocket/extensions/authentication_content.py', 'AuthenticationContent')):
+        tree = _parse(rel)
+        init = func_node(class_node(tree, rel, cname), rel, '__init__')
+        found = None
+        for n in ast.walk(init):
+            if isinstance(n, ast.Call) and isinstance(n.func, ast.Attribute) and n.func.attr == '__init__' \
+                    and isinstance(n.func.value, ast.Call) and isinstance(n.func.value.func, ast.Name) \
+                    and n.func.value.func.id == 'super' and n.args:
+                found = _dotted(n.args[0])
+        if found is None:
+            raise GenError(f'{rel}: {cname}.__init__ has no super().__init__(<encoding>, ...) call')
+        parts = found.split('.')
+        if len(parts) != 4 or parts[0] != 'WellKnownMimeTypes' or parts[2:] != ['value', 'name'] or parts[1] not in enum_name:
+            raise GenError(f'{rel}: {cname} passes an unexpected encoding {found}')
+        rows.append(f'({kind[cname]}%N, {coq_bytes(enum_name[parts[1]])})')
+    L.append('(* kind -> the encoding the typed entry class gives itself *)')
+    L.append('Definition ctor_encoding_table : list (N * list byte) := [' + '; '.join(rows) + '].')
     return '\n'.join(L) + '\n'
 
 
